@@ -207,13 +207,13 @@ func deepCopy(v any) any {
 }
 
 type matchOutcome struct {
-	Name  string
-	Hits  []hit
-	Err   error
-	Panic any
-	Hung  bool
+	Name   string
+	Hits   []hit
+	Err    error
+	Panic  any
+	Hung   bool
 	Bounds []int
-	Calls int
+	Calls  int
 }
 
 func runMatch(name string, rd *sim.SimReader, f func(cb func(jp.Expr, any)) error) *matchOutcome {
